@@ -6,6 +6,10 @@ V = os.path.dirname(os.path.abspath(__file__))
 
 # id -> (category, technique, text, note, design_ref)
 CHECKS = {
+ "C01": ("exploration",
+  "generator-by-construction oracle: RDB files whose expected record list and exact payload bytes are emitted by the same walk as the bytes; real loader output compared record by record; child processes, Go race detector on the loader goroutine/channel",
+  "3000 (quick) / 60000 (thorough) generated RDB files covering every value type and physical encoding (all ziplist entry encodings, intset widths, zipmap, quicklist, LZF with overlapping back-references, int strings, streams with groups/PEL/consumers), every length form, versions 1-9, s/ms expiry, idle/freq, aux/lua/resize/module-aux (every sub-opcode) between keys and alternating SELECTDB are parsed by rdb.NewLoader (a tenth through a 1..7-byte dribbling reader) and by utils.NewRDBLoader; each record's db/key/type/expiry/idle/freq and the byte-exact checksummed payload are compared with the generator's expectation; 2/8 files with hashes above the 16 MiB chunk limit check chunk concatenation, trailers, expiry on every chunk and the neighbours. Coverage floors per encoding and metadata kind.",
+  "Trusted: lib/rdbgen (self-tested against the independent decoder lib/refrdb on every run). Zipmap item lengths >= 253 and checksum-less (rdbchecksum no / version < 5) files are not generated.", "DESIGN.md §5/C01"),
  "C09": ("exploration",
   "runtime monitor: scripted operation programs vs a byte-FIFO model with goroutine-state (sync.Cond.Wait) inspection for block/wake; free-running writer/reader under the Go race detector with a stream-prefix/drain oracle",
   "Thousands of seeded programs of Write/Read/Buffered/Available/Close (chunks 0,1,cap-1,cap,cap+1,2cap+3; close at any step by either side; mem 4-12 KiB and file 4-8 MiB pipes) are executed one operation at a time; a FIFO model predicts 'result or blocks' and the parked/woken state of the real goroutine is read from runtime.Stack, so lost wake-ups and spurious blocking are decided without timers; data is position-coded. Free-running concurrent runs add interleavings under -race (any race report in pipe code is a violation).",
